@@ -1,8 +1,8 @@
 (* Properties/C01.v — text output obeys the tree-drawing rule.
    Only statements closed by [exact], their assumptions, and non-vacuity examples. *)
 From Coq Require Import List Ascii String.
-From GT Require Import Base.GoStr Md.Parser Tree.Tree Tree.Gen Tree.Grower Api.Simple Spec.Spec
-  Proofs.GenItems Proofs.GrowRender Proofs.BuildTrie Proofs.OutputText.
+From GT Require Import Base.GoStr Md.Parser Tree.Tree Tree.Gen Tree.Grower Api.Simple Spec.Spec Spec.Classify Spec.Spelling
+  Proofs.GenItems Proofs.GrowRender Proofs.BuildTrie Proofs.OutputText Proofs.SpelledTop.
 Import ListNotations.
 
 (* link (iv): bottom-up branch assembly + text spreader = top-down renderer, any tree *)
@@ -28,6 +28,20 @@ Theorem C01_text_rule_items : forall bf ni input rows f st',
 Proof. exact output_text_forest. Qed.
 Print Assumptions C01_text_rule_items.
 
+(* THE PROPERTY AT FULL STRENGTH.  For every forest f (any number of roots, depth, fan-out,
+   repeated sibling names, any names allowed by item_ok: non-empty, and for heading-style
+   roots not starting with '#'/' ' nor ending with ' '), every spelling of it in the
+   notation family of Spec/Spelling.v (unit = tab or any k >= 1 spaces, a bullet per line
+   among - * +, heading roots or not, blank / whitespace-only / Unicode-space rows anywhere,
+   LF or CRLF per row, final newline or not; rows free of LF, not ending in CR, shorter than
+   the scanner limit), all four branch strings and both routes: the call returns nil and the
+   bytes written are the reference rendering of the forest with equally named siblings merged. *)
+Theorem C01_text_rule : forall bf ni sp f, spells sp f ->
+  exists ws, output_md (text_cfg bf ni) (bytes_of sp) = (ws, Ok tt) /\
+             chunks_text ws = Some (render bf (map trie_of f)).
+Proof. exact text_rule. Qed.
+Print Assumptions C01_text_rule.
+
 (* non-vacuity: a 2-root document with a merged sibling that changes who is last,
    depth 4, a name "- x", evaluated through the whole model *)
 Definition s (x : string) : str := list_ascii_of_string x.
@@ -43,3 +57,28 @@ Example C01_nonvacuous :
   chunks_text (fst (output_md (text_cfg default_bfmt false) doc1)) = Some (render default_bfmt (map trie_of f1)) /\
   map trie_of f1 <> f1.
 Proof. split; [|split]; vm_compute; congruence. Qed.
+
+(* the hypothesis of C01_text_rule is satisfiable: a heading-style, tab-indented, CRLF/LF-mixed
+   spelling with a whitespace-only row, three different bullets and no final newline *)
+Definition f2 : list tree := [T (s "r") [T (s "a") [T (s "- x") []]; T (s "a") [T (s "y") []]]; T (s "q") []].
+Definition sp2 : spelling :=
+  {| sp_unit := UTab; sp_heading := true;
+     sp_rows := [(s "# r", true); ([c_sp; c_tab], false); (s "* a", false); ([c_tab] ++ s "+ - x", true); (s "- a", false);
+                 ([c_tab] ++ s "- y", false); (s "##  q ", false)];
+     sp_final_newline := false |}.
+Example C01_spells_nonvacuous : spells sp2 f2.
+Proof.
+  unfold spells. split; [|split; [|split]].
+  - repeat constructor; cbn; try discriminate; intros; try discriminate; repeat split; discriminate.
+  - cbn [sp_rows sp_unit sp_heading map fst forest_items flat_map preorder_d f2 app tname].
+    apply rows_item; [exact (row_heading UTab true (s "r") 0 1 0 eq_refl)|].
+    apply rows_blank; [reflexivity|].
+    apply rows_item; [refine (row_item UTab true 2 (s "a") c_as eq_refl _ _); [repeat constructor|intros; repeat constructor]|].
+    apply rows_item; [refine (row_item UTab true 3 (s "- x") c_pl eq_refl _ _); [repeat constructor|intros; repeat constructor]|].
+    apply rows_item; [refine (row_item UTab true 2 (s "a") c_hy eq_refl _ _); [repeat constructor|intros; repeat constructor]|].
+    apply rows_item; [refine (row_item UTab true 3 (s "y") c_hy eq_refl _ _); [repeat constructor|intros; repeat constructor]|].
+    apply rows_item; [exact (row_heading UTab true (s "q") 1 2 1 eq_refl)|].
+    apply rows_nil.
+  - repeat constructor; cbn; try (intros [H|H]; try discriminate; repeat (destruct H as [H|H]; try discriminate); try contradiction); try discriminate; try reflexivity.
+  - intros _. cbn. discriminate.
+Qed.
